@@ -11,6 +11,7 @@ import (
 
 	"github.com/tokenized/pkg/bitcoin"
 	"github.com/tokenized/pkg/wire"
+	"github.com/tokenized/spynode/internal/spynode"
 	"github.com/tokenized/spynode/internal/storage"
 	"github.com/tokenized/spynode/pkg/client"
 	"golang.org/x/crypto/ripemd160"
@@ -141,6 +142,8 @@ type txScenario struct {
 	reqMempool  bool
 	horizon     time.Duration
 	knobs       string
+	subSetup    func(node *spynode.Node)
+	rel         func(tx *wire.MsgTx) bool
 }
 
 func (sc *txScenario) String() string {
@@ -173,13 +176,18 @@ type txGenOpts struct {
 	maxTxs      int
 	silentPeers bool // some announcements are never honoured
 	blockConflicts bool // blocks may confirm a tx that conflicts with an unconfirmed one not in the block
+	// C08: custom scripts and subscriptions
+	prepare  func(ns *NodeSim)
+	mkTx     func(w *TxWorld, spends []wire.OutPoint, nOut int) (*wire.MsgTx, bool)
+	subSetup func(node *spynode.Node)
+	rel      func(tx *wire.MsgTx) bool
 }
 
 var subKey = []byte("subscribed-key-000001")[:20]
 
 func genTxScenario(c *Ctx, w *TxWorld, o txGenOpts) *txScenario {
 	t := c.Scen
-	sc := &txScenario{}
+	sc := &txScenario{subSetup: o.subSetup, rel: o.rel}
 	if o.untrusted {
 		sc.untrusted = pickFrom(t, 0, 1, 2, 3)
 	}
@@ -244,12 +252,16 @@ func genTxScenario(c *Ctx, w *TxWorld, o txGenOpts) *txScenario {
 			ts.spends = append(ts.spends, op)
 			used[op] = true
 		}
-		ts.relevant = t.Bool(3, 4)
-		var rel []byte
-		if ts.relevant {
-			rel = subKey
+		if o.mkTx != nil {
+			ts.tx, ts.relevant = o.mkTx(w, ts.spends, 1+int(t.Choose(3)))
+		} else {
+			ts.relevant = t.Bool(3, 4)
+			var rel []byte
+			if ts.relevant {
+				rel = subKey
+			}
+			ts.tx = w.NewTx(ts.spends, rel, 1+int(t.Choose(2)), i)
 		}
-		ts.tx = w.NewTx(ts.spends, rel, 1+int(t.Choose(2)), i)
 		ts.id = *ts.tx.TxHash()
 		// deliveries
 		nd := 1 + int(t.Choose(3))
@@ -365,6 +377,10 @@ func newTxRun(c *Ctx, sc *txScenario, ns *NodeSim) *txRun {
 	ns.Cfg.UntrustedCount = sc.untrusted
 	ns.Cfg.RequestMempool = sc.reqMempool
 	ns.SubData = [][]byte{subKey}
+	if sc.subSetup != nil {
+		ns.SubData = nil
+		ns.SubSetup = sc.subSetup
+	}
 	pre := 8 + int(c.Scen.Choose(4))
 	tip := ns.BuildChain(ns.Tree.Genesis, pre, nil)
 	ns.Start = ns.BuildChain(tip, 1, nil)
